@@ -80,7 +80,7 @@ Qed.
 
 (* ---------- C11 on the code as written ---------------------------------------------------- *)
 
-From MV Require Import NextLevel ShapeTyping Anchors.
+From MV Require Import NextLevel ShapeTyping Anchors TypingLemmas RecordLemmas.
 
 Lemma target_valid c s vt : target c s true = Some vt -> is_valid c s true = true.
 Proof. unfold target, with_match, is_valid. destruct (typing c s true); [reflexivity|discriminate|discriminate]. Qed.
@@ -118,4 +118,80 @@ Proof.
   rewrite Hc. cbn [src_entity ent_cls ent_record pr_seq]. f_equal.
   change (generic_cls RModule e') with (C RModule e' (module_structure e')).
   exact (f_equal (fun x => fst (fst (fst (fst x)))) Hobs).
+Qed.
+
+(* ---------- C12 end to end on the code as written --------------------------------------- *)
+
+Lemma src_modules_good_gen (f : mplasmid * Z -> cls * list letter) (e : enzyme) :
+  (forall x, exists s, f x = (generic_cls RModule e, s)) ->
+  forall l i,
+  Forall (fun x => Z.of_nat (List.length (snd (f x))) <= py_MAXSIZE) l ->
+  Forall good_ent (src_modules i (map f l)).
+Proof.
+  intros Hf. induction l as [|x l IH]; intros i H; cbn; [constructor|].
+  inversion H; subst. destruct (Hf x) as [s Hs]. rewrite Hs in *. cbn [snd] in *.
+  constructor; [now apply src_entity_good|now apply IH].
+Qed.
+
+(* one assembly through the translated code, from the model's verdict *)
+Lemma src_product_of_raw vc v (ms : list (cls * list letter)) w used :
+  good_ent (src_entity (List.length ms) vc v) -> Forall good_ent (src_modules 0 ms) ->
+  assemble_raw vc v ms = Product w used [] ->
+  exists prod ws, vector_assemble (S (S (List.length ms))) (src_entity (List.length ms) vc v) (src_modules 0 ms) = Ok (prod, ws)
+    /\ pr_seq prod = w /\ unused_of ws = [].
+Proof.
+  intros Gv Gm HE.
+  destruct (src_modules_spec ms 0) as [Hraw Hids].
+  assert (Hlen : List.length (src_modules 0 ms) = List.length ms)
+    by (rewrite <- (map_length ent_id), Hids; apply seq_length).
+  pose proof (vector_assemble_eq (src_entity (List.length ms) vc v) (src_modules 0 ms) Gv Gm) as H.
+  rewrite Hlen, Hids in H. specialize (H eq_refl). rewrite Hraw in H.
+  change (ent_cls (src_entity (List.length ms) vc v)) with vc in H.
+  change (ent_seq_w (src_entity (List.length ms) vc v)) with v in H.
+  rewrite HE in H. cbn [forget_used] in H.
+  destruct (vector_assemble _ _ _) as [[prod ws]|x].
+  - cbn [outcome_of] in H. inversion H. exists prod, ws. repeat split; auto.
+  - destruct x; cbn in H; try discriminate. destruct o; discriminate.
+Qed.
+
+(* STRAND SYMMETRY ON THE SOURCE: under the hypotheses of C12_end_to_end, the translated
+   vector.assemble returns, for the plasmids and for their reverse complements (each read from any
+   origin, in any order), products related as the model says: the second is, up to the letter case
+   of the junction overhangs and up to the origin, the reverse complement of the first *)
+Theorem src_end_to_end_strand e v kv kv' (l l' : list (mplasmid * Z)) (cs : list smod) :
+  (0 < List.length (esite e))%nat -> vplasmid_ok e v -> Forall (mplasmid_ok e) (map fst l) ->
+  map fst l' = map fst l ->
+  let ms := number 0 (map fst l) in
+  Permutation ms cs ->
+  path (okey (qOdn v)) (map keys_of cs) (okey (qOup v)) ->
+  okey (qOup v) <> okey (qOdn v) ->
+  Forall (fun m => okey (so5 m) <> okey (qOup v)) cs ->
+  Forall (fun m => okey (so3 m) <> okey (qOdn v)) cs ->
+  clash_free rc_codes (map tmod_of ms) -> clash_free rc_codes (map tmod_of (map rc_smod ms)) ->
+  Z.of_nat (List.length (vword v)) <= py_MAXSIZE ->
+  Forall (fun x => Z.of_nat (List.length (mword (fst x))) <= py_MAXSIZE) l ->
+  Forall (fun x => Z.of_nat (List.length (mword (fst x))) <= py_MAXSIZE) l' ->
+  exists p ws p' ws',
+    vector_assemble (S (S (List.length l))) (src_entity (List.length l) (generic_cls RVector e) (rotr kv (vword v)))
+                    (src_modules 0 (map (marg e) l)) = Ok (p, ws) /\ unused_of ws = [] /\
+    vector_assemble (S (S (List.length l'))) (src_entity (List.length l') (generic_cls RVector e) (rotr kv' (rc (vword v))))
+                    (src_modules 0 (map (marg_rc e) l')) = Ok (p', ws') /\ unused_of ws' = [] /\
+    same_codes (pr_seq p') (rotl (Z.of_nat (List.length (rc (vbackbone v)))) (rc (pr_seq p))).
+Proof.
+  intros Hs Hv Hms Hl' ms Hperm Hpath Hne F5 F3 CF CF' Lv Lm Lm'.
+  destruct (end_to_end_strand e v kv kv' l l' cs Hs Hv Hms Hl' Hperm Hpath Hne F5 F3 CF CF') as (E1 & E2 & Hrel).
+  assert (G1 : good_ent (src_entity (List.length (map (marg e) l)) (generic_cls RVector e) (rotr kv (vword v))))
+    by (apply src_entity_good; now rewrite rotr_length).
+  assert (G2 : good_ent (src_entity (List.length (map (marg_rc e) l')) (generic_cls RVector e) (rotr kv' (rc (vword v)))))
+    by (apply src_entity_good; now rewrite rotr_length, rc_length).
+  assert (M1 : Forall good_ent (src_modules 0 (map (marg e) l))).
+  { apply (src_modules_good_gen (marg e) e); [intros x; eexists; reflexivity|].
+    eapply Forall_impl; [|exact Lm]. intros x Hx. unfold marg. cbn [snd]. now rewrite rotr_length. }
+  assert (M2 : Forall good_ent (src_modules 0 (map (marg_rc e) l'))).
+  { apply (src_modules_good_gen (marg_rc e) e); [intros x; eexists; reflexivity|].
+    eapply Forall_impl; [|exact Lm']. intros x Hx. unfold marg_rc. cbn [snd]. now rewrite rotr_length, rc_length. }
+  destruct (src_product_of_raw _ _ _ _ _ G1 M1 E1) as (p & ws & A1 & P1 & U1).
+  destruct (src_product_of_raw _ _ _ _ _ G2 M2 E2) as (p' & ws' & A2 & P2 & U2).
+  rewrite map_length in A1, A2.
+  exists p, ws, p', ws'. repeat split; auto. rewrite P1, P2. exact Hrel.
 Qed.
